@@ -1,4 +1,4 @@
-\* driver skeletons: random behaviours of the full machine (run with -simulate, -depth MaxOps + 1)
+\* driver skeletons: random behaviours of the full machine, up to three iterators of one sampler object alive at once (run with -simulate, -depth MaxOps + 1)
 INIT Init
 NEXT Next
 CONSTANTS
@@ -11,9 +11,10 @@ CONSTANTS
   MaxEpoch = 2
   MaxOps = 40
   Schedule = "free"
-  Features <- AllFeatures
+  Features <- AllLiveFeatures
 INVARIANT TypeOK
 INVARIANT PathIndependent
+INVARIANT LivePrefixes
 INVARIANT Disjoint
 INVARIANT Cover
 INVARIANT ExportOps
